@@ -52,6 +52,15 @@ def gen_case(rng, idx, quick=True):
     if b1 <= idx < b1 + len(CATS):
         k_, n, forced_pat, forced_version = CATS[idx - b1]
         kinds = [k_]
+    # directed: v2 data pages without missing values, every kind (the reader's read-into / decompress-into paths), no LZ4
+    b2 = b1 + len(CATS)
+    forced_comp = "unset"
+    if b2 <= idx < b2 + len(KINDS):
+        kinds = [KINDS[idx - b2]]
+        forced_pat = "none"
+        forced_version = 2
+        forced_comp = [None, "SNAPPY", "ZSTD", "GZIP"][idx % 4]
+        n = [9, 64, 130][idx % 3]
     pats = {}
     df = pd.DataFrame({"rid": np.arange(n, dtype="int64")})
     for j, k in enumerate(kinds):
@@ -65,6 +74,8 @@ def gen_case(rng, idx, quick=True):
     comp = rng.choice(CODECS)
     if comp and rng.random() < 0.2 and len(df.columns) > 1:
         comp = {df.columns[1]: comp, "_default": None}
+    if forced_comp != "unset":
+        comp = forced_comp
     if comp is not None:
         opts["compression"] = comp
     r = rng.random()
